@@ -288,3 +288,13 @@ R.contracts[f'{PE}._consume_result_queue'].interrupt_exit = [
     C("forall('Fid', lambda i: implies((i in DELIVERED) and (i not in old(DELIVERED)) and (i in old(RUN(self))), old(RUN(self))[i][0].done))",
       'INTERRUPTED INSIDE: every item taken off the result queue has been applied to its future (no received result is dropped)', serves=('C14', 'C01')),
 ]
+
+# C14/C11: an interrupt inside _start_processes must not lose a future (taken off the queue but not yet registered as running):
+# the runner would wait for it for ever.
+R.contracts[f'{PE}._start_processes'].interrupt_exit = [
+    C("forall('Fid', lambda i: implies(i in RUN(self), RUN(self)[i][0].id == i))", 'INTERRUPTED INSIDE: running entries are keyed by the id of their future', serves=('C14',)),
+    C("forall('Fut', lambda f: implies((f in PEND(self)) and (f.id in RUN(self)), (RUN(self)[f.id][0] == f) and (f.id not in STARTED)))",
+      'INTERRUPTED INSIDE: a future that is still queued while already registered as running has no started process yet '
+      '(cancel() then cancels it and stop() has nothing to terminate for it)', serves=('C14',))] + [
+    C("forall('Fut', lambda f: implies(f in old(PEND(self)), (f in PEND(self)) or ((f.id in RUN(self)) and (RUN(self)[f.id][0] == f))))",
+      'INTERRUPTED INSIDE: no future is lost -- every future that was queued is still queued or is registered as running', serves=('C14', 'C11'))]
